@@ -195,15 +195,27 @@ func c08exec(c *vt.Ctx, r c08run) (prof c08profile) {
 		// teardown: let stubborn handlers go, close the peer end, wait
 		rig.H.ReleaseAll()
 		rig.Settle()
-		log.Add("cause", "teardown-peerclose", "")
-		rig.Peer.CloseQuiet()
-		rig.Settle()
+		// If WaitStatus has already returned, the old session is over: its peer stays
+		// silent until the server has been restarted, and closes (after one more
+		// record) only then — late events on the old channel must not reach the new session.
 		var st jrpc2.ServerStatus
 		ok := false
 		select {
 		case st = <-statusCh:
 			ok = true
 		default:
+		}
+		oldPeer := rig.Peer
+		lateOldPeer := ok
+		if !ok {
+			log.Add("cause", "teardown-peerclose", "")
+			rig.Peer.CloseQuiet()
+			rig.Settle()
+			select {
+			case st = <-statusCh:
+				ok = true
+			default:
+			}
 		}
 		s, rcv, _ := rig.End.Counts()
 		prof = c08profile{recvs: int(rcv), sends: int(s)}
@@ -226,6 +238,14 @@ func c08exec(c *vt.Ctx, r c08run) (prof c08profile) {
 		rig.Peer, rig.End = vchan.NewPair("cli", "srv", rig.Mon)
 		rig.End.PipeLike = r.pipeLike
 		rig.Srv.Start(rig.End)
+		if lateOldPeer {
+			oldPeer.Inject([]byte(peer.Req("", "i", "ghost")))
+			oldPeer.CloseQuiet()
+			rig.Settle()
+			if rig.Log.Count("h.enter", "ghost") != 0 {
+				c.Failf("a record sent on the previous channel after the restart was served by the restarted server")
+			}
+		}
 		n0 := len(rig.Outbound())
 		rig.Send(peer.Req(`"again"`, "i", "again"))
 		rig.Settle()
